@@ -141,6 +141,8 @@ def run(ctx):
                      domain=dom)
     if not tz_mode():
         SC.math_of_int_lane(ctx, ctx.rng("mathint"), select, findings.django_semantic_triggers, extra_case=case_extra, profile=p)
+        SC.math_of_literal_lane(ctx, ctx.rng("mathlit"), select, findings.django_semantic_triggers, extra_case=case_extra, profile=p)
+        SC.neutral_boolean_lane(ctx, ctx.rng("neutral"), select, findings.django_semantic_triggers, extra_case=case_extra, profile=p)
         SC.bracket_string_lane(ctx, ctx.rng("brackets"), select, findings.django_semantic_triggers, extra_case=case_extra, profile=p)
         SC.grouping_grid_lane(ctx, ctx.rng("grid"), select, findings.django_semantic_triggers, extra_case=case_extra, profile=p)
         SC.spelling_twin_lane(ctx, ctx.rng("twin"), select, findings.django_semantic_triggers, extra_case=case_extra, profile=p)
